@@ -1,16 +1,20 @@
 #!/usr/bin/env python3
 """mutcheck.py <seeded-dir> [--props C10,C11] [--tier quick|thorough] [--seconds N]
 
-Applies <seeded-dir>/patch.diff to /repo (git apply), runs the check of the property the
-change was made for (meta.json: "property"; --props overrides / adds others), restores
-/repo (git checkout -- .) and /verif's evidence and replay files, and records the outcome
-in <seeded-dir>/result.json: caught (exit 1 with a VIOLATION line), missed (exit 0) or
-trouble (exit 2). Never commits anything in /repo.
+Decides whether a seeded change is caught. A scratch copy of /repo's HEAD is made under
+/var/tmp, <seeded-dir>/patch.diff is applied to it, and the check of the property the
+change was made for (meta.json: "property"; --props overrides / adds others) is run with
+VERIF_REPO pointing at the copy and VERIF_OUT_DIR at a scratch directory, so neither
+/repo nor /verif's evidence is touched. Outcome per property in <seeded-dir>/result.json:
+caught (exit 1 with a VIOLATION line), missed (exit 0) or trouble (exit 2); the first
+replay file of a catch is kept as witness-<id>.json. The copy is removed afterwards.
+
+(The same can be done by hand on /repo itself: git -C /repo apply <patch>; run the check;
+git -C /repo checkout -- .)
 """
 import json, os, subprocess, sys, time, shutil
 
 VERIF = os.path.dirname(os.path.dirname(os.path.abspath(__file__)))
-REPO = "/repo"
 
 
 def sh(cmd, **kw):
@@ -34,43 +38,49 @@ def main():
             seconds = args[i + 1]; i += 2
         else:
             i += 1
-    if sh(["git", "-C", REPO, "status", "--porcelain"]).stdout.strip():
-        print("refusing: /repo has uncommitted changes"); return 2
-    patch = os.path.join(d, "patch.diff")
-    r = sh(["git", "-C", REPO, "apply", "--whitespace=nowarn", patch])
+    scratch = "/var/tmp/verif-mut-%d" % os.getpid()
+    shutil.rmtree(scratch, ignore_errors=True)
+    os.makedirs(scratch)
+    repo = os.path.join(scratch, "repo")
+    r = sh(["git", "clone", "-q", "--no-hardlinks", "/repo", repo])
     if r.returncode != 0:
-        print("patch does not apply:\n" + r.stdout); return 2
+        print("cannot copy /repo:\n" + r.stdout); return 2
+    r = sh(["git", "-C", repo, "apply", "--whitespace=nowarn", os.path.join(d, "patch.diff")])
+    if r.returncode != 0:
+        print("patch does not apply:\n" + r.stdout)
+        shutil.rmtree(scratch, ignore_errors=True)
+        return 2
     results = {}
     try:
         for p in props:
-            env = dict(os.environ, VERIF_TIER=tier)
+            out = os.path.join(scratch, "out")
+            env = dict(os.environ, VERIF_TIER=tier, VERIF_REPO=repo, VERIF_OUT_DIR=out)
             cmd = [sys.executable, os.path.join(VERIF, "bin", "check.py"), p, "--tier", tier]
             if seconds:
                 cmd += ["--seconds", str(seconds)]
             t0 = time.time()
             r = sh(cmd, env=env, cwd=VERIF)
-            lines = [l for l in r.stdout.splitlines() if l.startswith(("VIOLATION", "KNOWN-FINDING", "HARNESS TROUBLE", p + " "))]
+            lines = [l for l in r.stdout.splitlines() if l.startswith(("VIOLATION", "KNOWN-FINDING", "HARNESS TROUBLE", "BUILD FAILED", p + " "))]
             viol = [l for l in r.stdout.splitlines() if l.startswith("VIOLATION")]
             outcome = {0: "missed", 1: "caught"}.get(r.returncode, "trouble")
             detail = []
-            # keep the first replay file of the catch as the witness
             if viol:
                 try:
                     rp = viol[0].split("replay=")[1].strip()
                     rf = json.load(open(rp))
-                    detail = [{"rule": v["rule"], "sig": v["sig"], "detail": v["detail"][:600]} for v in rf.get("violations", [])[:2]]
+                    detail = [{"rule": v["rule"], "sig": v["sig"], "detail": v["detail"][:700]} for v in rf.get("violations", [])[:2]]
                     shutil.copy(rp, os.path.join(d, "witness-%s.json" % p))
                 except Exception as e:  # noqa
                     detail = [{"error": str(e)}]
-            results[p] = {"outcome": outcome, "exit": r.returncode, "wall_s": round(time.time() - t0, 1), "tier": tier, "lines": lines[:12], "witness": detail}
-            print(p, outcome, "%.0fs" % (time.time() - t0))
-            for l in lines[:6]:
-                print("   ", l[:300])
+            if outcome == "trouble":
+                lines += r.stdout.splitlines()[-15:]
+            results[p] = {"outcome": outcome, "exit": r.returncode, "wall_s": round(time.time() - t0, 1), "tier": tier,
+                          "violations": len(viol), "lines": [l[:400] for l in lines[:14]], "witness": detail}
+            print(p, outcome, "%.0fs" % (time.time() - t0), "violations=%d" % len(viol))
+            for w in detail[:1]:
+                print("    rule=%s sig=%s" % (w.get("rule"), w.get("sig")))
     finally:
-        sh(["git", "-C", REPO, "checkout", "--", "."])
-        sh(["git", "-C", VERIF, "checkout", "--", "evidence"])
-        sh(["git", "-C", VERIF, "clean", "-fdq", "replays"])
-        sh(["git", "-C", VERIF, "checkout", "--", "replays"])
+        shutil.rmtree(scratch, ignore_errors=True)
     prev = {}
     rp = os.path.join(d, "result.json")
     if os.path.exists(rp):
